@@ -27,8 +27,13 @@ use aranya_crypto::{
             Aead, AeadKey, IndCca2, Lifetime, OpenError as AeadOpenError,
             SealError as AeadSealError, check_open_in_place_params, check_seal_in_place_params,
         },
+        csprng::Csprng,
+        hash::{Digest, Hash},
         hpke::{AeadId, HpkeAead},
-        oid::{Identified, Oid, consts::AES_256_GCM},
+        oid::{
+            Identified, Oid,
+            consts::{AES_256_GCM, SHA2_256},
+        },
     },
     default::DefaultCipherSuite,
     typenum::{U12, U16, U32},
@@ -309,9 +314,62 @@ impl VA for ToyAead {}
 
 impl<A: aranya_crypto::Aead> CipherSuite for VCs<A> {
     type Aead = A;
-    type Hash = <DefaultCipherSuite as CipherSuite>::Hash;
+    type Hash = ToyHash;
     type Kdf = <DefaultCipherSuite as CipherSuite>::Kdf;
     type Kem = <DefaultCipherSuite as CipherSuite>::Kem;
     type Mac = <DefaultCipherSuite as CipherSuite>::Mac;
     type Signer = <DefaultCipherSuite as CipherSuite>::Signer;
+}
+
+// ---------------------------------------------------------------------------------
+// Toy hash (only used for the shared-memory `KeyId`, which no check looks at) and a
+// deterministic "random" source.
+// ---------------------------------------------------------------------------------
+
+#[derive(Clone)]
+pub struct ToyHash {
+    acc: [u8; 32],
+    pos: usize,
+}
+
+impl Hash for ToyHash {
+    type DigestSize = U32;
+
+    fn new() -> Self {
+        Self {
+            acc: [0; 32],
+            pos: 0,
+        }
+    }
+
+    fn update(&mut self, data: &[u8]) {
+        let mut i = 0;
+        while i < data.len() {
+            self.acc[self.pos & 31] ^= data[i];
+            self.pos = self.pos.wrapping_add(1);
+            i += 1;
+        }
+    }
+
+    fn digest(self) -> Digest<U32> {
+        Digest::from_array(self.acc)
+    }
+}
+
+impl Identified for ToyHash {
+    const OID: &'static Oid = SHA2_256;
+}
+
+/// Fills with a constant; the only consumer is `ShmChan::init`, which randomises the
+/// key slot a channel does not use.
+pub struct ConstRng;
+
+impl Csprng for ConstRng {
+    fn fill_bytes(&self, dst: &mut [u8]) {
+        let mut i = 0;
+        while i < dst.len() {
+            dst[i] = 0x5a;
+            i += 1;
+        }
+    }
 }
